@@ -912,8 +912,8 @@ func init() {
 				for _, m := range []string{"json", "bytes", "ctype"} {
 					l.Add("reply-refs", c17Params{Entry: "reply-refs", Corpus: corpus, Mut: m, Budget: budget / 2}, 0)
 					l.Add("reply-fetch", c17Params{Entry: "reply-fetch", Corpus: corpus, Mut: m, Budget: budget}, 0)
-					l.Add("reply-cli-fetch", c17Params{Entry: "reply-cli-fetch", Corpus: corpus, Mut: m, Budget: l.N(60, 1500)}, 0)
-					l.Add("reply-cli-push", c17Params{Entry: "reply-cli-push", Corpus: corpus, Mut: m, Budget: l.N(60, 1500)}, 0)
+					l.Add("reply-cli-fetch", c17Params{Entry: "reply-cli-fetch", Corpus: corpus, Mut: m, Budget: l.N(60, 250)}, 0)
+					l.Add("reply-cli-push", c17Params{Entry: "reply-cli-push", Corpus: corpus, Mut: m, Budget: l.N(60, 250)}, 0)
 				}
 			}
 			for i := 0; i < l.N(2, 8); i++ {
